@@ -57,7 +57,7 @@ UNITS["v_closure_runner"] = dict(
              sig="pub fn run_key_value(&self, ctx: &mut Context, key: &Str, value: &Value) -> (r: Result<Value, ExpressionError>)",
              ensures=runner_ensures("run_key_value", 2, True),
              rewrites=[RW_RUNNER,
-                       dict(**{"from": "cloned_key.into()", "to": "cloned_key.into_value()", "why": "From<String> for Value: opaque conversion"})],
+                       dict(**{"from": r"(insert\(ctx\.state_mut\(\), \w+, \w+)\.into\(\)\)", "to": r"\1.into_value())", "regex": True, "why": "From<_> for Value at the binding of a closure parameter: opaque conversion (trait IntoValue)"})],
              safety_id="C13.run_key_value.safety"),
         dict(id="run_index_value", file=CLOSURE, impl=RUNNER_IMPL, name="run_index_value",
              orig_sig="fn run_index_value( &self, ctx: &mut Context, index: usize, value: &Value, ) -> Result<Value, ExpressionError>",
@@ -65,7 +65,7 @@ UNITS["v_closure_runner"] = dict(
              sig="pub fn run_index_value(&self, ctx: &mut Context, index: usize, value: &Value) -> (r: Result<Value, ExpressionError>)",
              ensures=runner_ensures("run_index_value", 2, True),
              rewrites=[RW_RUNNER,
-                       dict(**{"from": "index.into()", "to": "usize_into_value(index)", "why": "From<usize> for Value: opaque conversion"})],
+                       dict(**{"from": r"(insert\(ctx\.state_mut\(\), \w+, \w+)\.into\(\)\)", "to": r"\1.into_value())", "regex": True, "why": "From<_> for Value at the binding of a closure parameter: opaque conversion (trait IntoValue)"})],
              safety_id="C13.run_index_value.safety"),
         dict(id="map_key", file=CLOSURE, impl=RUNNER_IMPL, name="map_key",
              orig_sig="fn map_key(&self, ctx: &mut Context, key: &mut KeyString) -> Result<(), ExpressionError>",
@@ -73,7 +73,7 @@ UNITS["v_closure_runner"] = dict(
              sig="pub fn map_key(&self, ctx: &mut Context, key: &mut KeyString) -> (r: Result<(), ExpressionError>)",
              ensures=runner_ensures("map_key", 1, False),
              rewrites=[RW_RUNNER,
-                       dict(**{"from": "cloned_key.into()", "to": "cloned_key.into_value()", "why": "From<KeyString> for Value: opaque conversion"}),
+                       dict(**{"from": r"(insert\(ctx\.state_mut\(\), \w+, \w+)\.into\(\)\)", "to": r"\1.into_value())", "regex": True, "why": "From<_> for Value at the binding of a closure parameter: opaque conversion (trait IntoValue)"}),
                        dict(**{"from": ".try_bytes_utf8_lossy()?.into()", "to": ".try_into_key_string()?", "why": "Value -> KeyString conversion or non-control-flow Error (havoc contract)"})],
              safety_id="C13.map_key.safety"),
         dict(id="map_value", file=CLOSURE, impl=RUNNER_IMPL, name="map_value",
